@@ -89,4 +89,23 @@ theorem verify_recovered (C : Params q E) (R : E) (e r s : ZMod q) (hr : r ≠ 0
     rw [h1, h2, zero_smul, zero_add, one_smul]
   exact ⟨hr, hs, by rw [hp]; exact hR, by rw [hp]; exact hf⟩
 
+/-- for a fixed signature `(r, s)` and candidate point `R`, recovery is injective in the digest:
+    different digests (as residues mod q) recover different keys -/
+theorem recoverPoint_injective_digest (C : Params q E) (R : E) (e e' r s : ZMod q) (hg : C.g ≠ 0) (hr : r ≠ 0)
+    (h : recoverPoint C R e r s = recoverPoint C R e' r s) : e = e' := by
+  unfold recoverPoint at h
+  have h1 : ((-e) * r⁻¹) • C.g = ((-e') * r⁻¹) • C.g := add_right_cancel h
+  have h2 : ((-e) * r⁻¹ - (-e') * r⁻¹) • C.g = 0 := by rw [sub_smul, h1, sub_self]
+  by_cases h3 : (-e) * r⁻¹ - (-e') * r⁻¹ = 0
+  · have hri : r⁻¹ ≠ 0 := inv_ne_zero hr
+    have h4 : (e' - e) * r⁻¹ = 0 := by rw [← h3]; ring
+    rcases mul_eq_zero.mp h4 with h5 | h5
+    · exact (sub_eq_zero.mp h5).symm
+    · exact absurd h5 hri
+  · exfalso
+    apply hg
+    have : C.g = ((-e) * r⁻¹ - (-e') * r⁻¹)⁻¹ • (((-e) * r⁻¹ - (-e') * r⁻¹) • C.g) := by
+      rw [smul_smul, inv_mul_cancel₀ h3, one_smul]
+    rw [this, h2, smul_zero]
+
 end BtcVerif.Ecdsa
